@@ -242,10 +242,12 @@ def _special_body(name):
     return SPECIAL_BODIES[name]()
 
 
-def run_witness_session(steps, frontend="wsgi", prefix="/", backend="tree", principal="/user/", audit_git=True):
+def run_witness_session(steps, frontend="wsgi", prefix="/", backend="tree", principal="/user/", audit_git=True,
+                        gitconf=""):
     """An explicit history (the witness of a listed finding): steps are [method name, args...]
     of DavSession, e.g. ["mk", "cal1", "calendar"], ["propupdate", "cal1", [["displayname", "x"]]]."""
-    s = DavSession(frontend=frontend, prefix=prefix, backend=backend, principal=principal, audit_git=audit_git)
+    s = DavSession(frontend=frontend, prefix=prefix, backend=backend, principal=principal, audit_git=audit_git,
+                   gitconf=gitconf)
     try:
         for st in steps:
             args = list(st[1:])
@@ -264,9 +266,19 @@ def run_witness_session(steps, frontend="wsgi", prefix="/", backend="tree", prin
         s.close()
 
 
+GITCONFS = ["[core]\n\tautocrlf = input", "[core]\n\tautocrlf = true\n\tfilemode = false",
+            "[core]\n\tquotepath = false\n\tprecomposeunicode = true"]
+
+
 def run_random_session(seed, prof, frontend="wsgi", prefix="/", backend="tree", audit_git=True, principal="/user/"):
     rng = random.Random(seed)
+    # one session in eight runs with git settings an administrator may have (line-ending
+    # conversion ...): the served state is judged, not what `git status' says under them
+    gitconf = rng.choice(GITCONFS) if rng.random() < 0.125 else ""
+    if gitconf:
+        audit_git = False
     s = DavSession(frontend=frontend, prefix=prefix, backend=backend, audit_git=audit_git, principal=principal,
+                   gitconf=gitconf,
                    index_threshold=rng.choice([None, None, 0, 1]),
                    strict=rng.random() >= 0.25, paranoid=rng.random() < 0.2)
     try:
